@@ -992,12 +992,15 @@ theorem calendarInitCD_canopyDevEnd (h : calendarInitCD F c = .ok o) :
     subst h; rfl
 
 /-- flowering fields: fruit/grain crops get `FloweringEndCD = HIstartCD + FloweringCD`, all others
-`NO_VALUE` in `FloweringEnd`, `FloweringEndCD` **and `FloweringCD`** (which a second call of the
-function then reads for determinant crops) -/
+`NO_VALUE` in `FloweringEnd` and `FloweringEndCD`; `FloweringCD` — an input, read for determinant
+crops — is kept as given for every crop type (before the repair recorded in `known_findings.txt`,
+property C20/C11, it was overwritten with `NO_VALUE`, which a second call of the function then
+read) -/
 theorem calendarInitCD_flowering (h : calendarInitCD F c = .ok o) :
     (c.cropType = 3 → o.floweringEndCD = c.hiStartCD + c.floweringCD ∧
       o.floweringEnd = c.floweringEnd ∧ o.floweringCD = c.floweringCD) ∧
-    (c.cropType ≠ 3 → o.floweringEndCD = -999 ∧ o.floweringEnd = -999 ∧ o.floweringCD = -999) := by
+    (c.cropType ≠ 3 → o.floweringEndCD = -999 ∧ o.floweringEnd = -999 ∧
+      o.floweringCD = c.floweringCD) := by
   unfold calendarInitCD at h
   cases hs : c.switchGDD with
   | true => simp [hs] at h
@@ -1007,6 +1010,27 @@ theorem calendarInitCD_flowering (h : calendarInitCD F c = .ok o) :
     constructor
     · intro h3; simp [h3]
     · intro h3; simp [h3]
+
+/-- the flowering length is never changed by the calendar-day derivation -/
+theorem calendarInitCD_floweringCD_kept (h : calendarInitCD F c = .ok o) :
+    o.floweringCD = c.floweringCD := by
+  unfold calendarInitCD at h
+  cases hs : c.switchGDD with
+  | true => simp [hs] at h
+  | false =>
+    simp only [hs, Bool.false_eq_true, if_false, Except.ok.injEq] at h
+    subst h
+    by_cases h3 : c.cropType = 3 <;> simp [h3]
+
+/-- **deriving the calendar again gives the same calendar**: the inputs the function reads
+(`HIstartCD`, `FloweringCD`, `SenescenceCD`, `EmergenceCD`, `CC0`, `CGC_CD`, `CCx`, `YldFormCD`, …)
+are not among the fields it rewrites, so a second derivation from the crop as the first one left it
+(`FloweringCD := o.floweringCD`) returns the same result — whether the model derives the calendar
+once (latest harvest date given) or twice (harvest date derived) is immaterial. -/
+theorem calendarInitCD_idempotent (h : calendarInitCD F c = .ok o) :
+    calendarInitCD F { c with floweringCD := o.floweringCD } = .ok o := by
+  rw [calendarInitCD_floweringCD_kept h]
+  exact h
 
 /-- `0 ≤ log(0.1/CC0)/CGC` when `0 < CC0 ≤ 0.1` and `0 < CGC` -/
 theorem cal_log_term_nonneg (hL : CalLogLaws F) {cc0 cgc : α} (h0 : 0 < cc0) (h1 : cc0 ≤ 0.1)
